@@ -248,6 +248,10 @@ structure St where
   nFload : Nat := 0
   /-- every decoding op of the section so far with its observation: the same op later must observe the same -/
   seen : List (String × String) := []
+  /-- the conversions whose RESULT the harness holds: slot ↦ (tree the conversion returned, `convs` at that time) -/
+  slots : List (String × String × Nat) := []
+  /-- conversions / loads of the section so far (every one of them renders JSON somewhere) -/
+  convs : Nat := 0
 
 mutual
 /-- the type lies in the modelled family: every pointer is a one-level pointer to a primitive or to a struct.
@@ -412,8 +416,12 @@ def runLoad (r : Report) (s : Section) (l : Line) (fs : Fields) (j : J) (j2 : Op
       r := r.violation s.idx l.idx s!"format-dependent class=format LJ=[{oLJ}] LY=[{oLY}] LT=[{oLT}] doc=[{printTree j}]"
   else
     r := r.addCover (if noNull j then "excluded-noncanonical-number" else "excluded-null")
-    -- JSON and YAML still agree on documents without null
-    if noNull j ∧ oLJ ≠ oLY then r := r.addCover "json-yaml-differ-out-of-scope"
+    -- integers in (MaxInt64, MaxUint64] cannot be written in TOML, but JSON and YAML must still agree on them
+    if inScopeJY j ∧ ¬ coll then
+      r := r.addCover "format-independence-json-yaml-checked"
+      if oLJ ≠ oLY then
+        r := r.violation s.idx l.idx s!"format-dependent class=format-json-yaml LJ=[{oLJ}] LY=[{oLY}] doc=[{printTree j}]"
+    else if noNull j ∧ oLJ ≠ oLY then r := r.addCover "json-yaml-differ-out-of-scope"
   match j2 with
   | some j2 =>
     if recasedTy (derefAll (.struct fs)) j j2 then
@@ -447,6 +455,7 @@ def runMunm (r : Report) (s : Section) (l : Line) (fs : Fields) (bits : Nat) (j 
   r := checkTokM im r s l "MYR" mY
   r := checkTokM im r s l "MTB" mT
   r := checkTokM im r s l "MTR" mT
+  r := checkTokM im r s l "MX" mJ
   r := aliasMonitor r s l
   r := r.addCover s!"munm-opts-{bits}"
   r := r.addCover ("munm-" ++ classOf mJ)
@@ -463,6 +472,10 @@ def runMunm (r : Report) (s : Section) (l : Line) (fs : Fields) (bits : Nat) (j 
   if l.obs.any (fun t => t.endsWith "=panic") then
     let cls := if printRes (unmarshalWith { o with f32Pinned := true } fs j) = "panic" then "env-float32-pointer" else "panic"
     r := r.violation s.idx l.idx s!"loader-panicked class={cls} at=mapping opts={bits} obs=[{joinSp (l.obs.filter fun t => t.endsWith "=panic")}] doc=[{printTree j}]"
+  -- **the options of a call are the options it was given**: the entry point equals the generic tree followed by an
+  -- unmarshaller built from exactly these options (an unmarshaller kept from an earlier call shows here)
+  if g "MJB" ≠ g "MX" then
+    r := r.violation s.idx l.idx s!"options-not-applied class=options opts={bits} MJB=[{g "MJB"}] explicit=[{g "MX"}] doc=[{printTree j}]: mapping.UnmarshalJsonBytes(content, v, opts...) differs from NewUnmarshaler(jsonTagKey, opts...) on the same tree"
   if g "MJB" ≠ g "MJR" ∨ g "MYB" ≠ g "MYR" ∨ g "MTB" ≠ g "MTR" then
     r := r.violation s.idx l.idx s!"reader-differs-from-bytes class=reader opts={bits} MJB=[{g "MJB"}] MJR=[{g "MJR"}] MYB=[{g "MYB"}] MYR=[{g "MYR"}] MTB=[{g "MTB"}] MTR=[{g "MTR"}]"
   if inScope j then
@@ -472,6 +485,10 @@ def runMunm (r : Report) (s : Section) (l : Line) (fs : Fields) (bits : Nat) (j 
       r := r.violation s.idx l.idx s!"format-dependent class=mapping-format opts={bits} MJB=[{g "MJB"}] MYB=[{g "MYB"}] MTB=[{t}] doc=[{printTree j}]"
   else
     r := r.addCover (if noNull j then "mapping-excluded-noncanonical-number" else "mapping-excluded-null")
+    if inScopeJY j then
+      r := r.addCover "mapping-format-independence-json-yaml-checked"
+      if g "MJB" ≠ g "MYB" then
+        r := r.violation s.idx l.idx s!"format-dependent class=mapping-format-json-yaml opts={bits} MJB=[{g "MJB"}] MYB=[{g "MYB"}] doc=[{printTree j}]"
   if bits = 0 then
     if hasEmbeddedDeep (.struct fs) ∨ tyHasStringOpt (.struct fs) then r := r.addCover "std-embedded-not-modelled"
     else r := checkTokM im r s l "S" (printRes (stdDecode fs j))
@@ -479,6 +496,92 @@ def runMunm (r : Report) (s : Section) (l : Line) (fs : Fields) (bits : Nat) (j 
     if inScope j then
       r := stdMonitor r s l fs j "MYB" "yaml-bytes"
       if g "MTB" ≠ "skip" then r := stdMonitor r s l fs j "MTB" "toml-bytes"
+  return r
+
+def bitsOfTok (t : String) : Option Nat :=
+  match (if t.endsWith "r" then String.ofList (t.toList.filter (· ≠ (Char.ofNat 114))) else t).toNat? with
+  | some n => if n ≤ 15 then some n else none
+  | none => none
+
+/-- the reader entry points `mapping.Unmarshal{Json,Yaml,Toml}Reader` on a reader of the caller with behaviour `mode`
+(every outcome kind of a user-supplied `io.Reader`), next to the bytes entry points on the same content.
+  plain / onebyte / zero (a `(0, nil)` read between the chunks): the reader result IS the bytes result;
+  cut (an error after half of the content) / errfirst: an error verdict - never a value;
+  short (half of the content, then io.EOF): half a JSON object is never a document - an error verdict;
+  tail (the whole content, then an error instead of io.EOF): YAML / TOML read everything first (`io.ReadAll`) and fail,
+        the JSON decoder stops at the closing brace and never sees it;
+  panic / panicstr (the reader panics with an error value / with a string): the panic reaches the caller. -/
+def runMrd (r : Report) (s : Section) (l : Line) (fs : Fields) (mode : String) (bits : Nat) (j : J) : Report := Id.run do
+  let mut r := r
+  let o : Opts := { optsOfBits bits with env := envOfTy (.struct fs) }
+  let mJ := eitherF32 (fun o => printRes (unmarshalWith o fs j)) o (obs? l.obs "JB")
+  let mY := eitherF32 (fun o => printRes (unmarshalYaml o fs (embY j))) o (obs? l.obs "YB")
+  let mT := eitherF32 (fun o => tomlFront j (fun t => printRes (unmarshalToml o fs t))) o (obs? l.obs "TB")
+  let im := tyInModel (.struct fs)
+  let viaReader (b : String) (isJson : Bool) : String :=
+    if b = "skip" then b
+    else if mode = "plain" ∨ mode = "onebyte" ∨ mode = "zero" then b
+    else if mode = "cut" ∨ mode = "errfirst" then "err"
+    else if mode = "tail" then (if isJson then b else "err")
+    else if mode = "short" then "err"
+    else "panic"
+  r := checkTokM im r s l "JB" mJ
+  r := checkTokM im r s l "YB" mY
+  r := checkTokM im r s l "TB" mT
+  r := checkTokM im r s l "JR" (viaReader mJ true)
+  -- short: half of a YAML / TOML text may be a document of its own (fewer lines): not predicted, only the JSON verdict is
+  if mode ≠ "short" then
+    r := checkTokM im r s l "YR" (viaReader mY false)
+    r := checkTokM im r s l "TR" (viaReader mT false)
+  r := aliasMonitor r s l
+  r := r.addCover s!"mrd-reader-{mode}"
+  r := r.addCover s!"mrd-{mode}-{classOf mJ}"
+  -- monitor, on the implementation's observations only
+  let g (k : String) : String := (obs? l.obs k).getD "?"
+  let pairs := [("JB", "JR"), ("YB", "YR"), ("TB", "TR")]
+  if mode = "plain" ∨ mode = "onebyte" ∨ mode = "zero" then
+    if pairs.any (fun p => g p.1 ≠ g p.2) then
+      r := r.violation s.idx l.idx s!"reader-differs-from-bytes class=reader mode={mode} opts={bits} JB=[{g "JB"}] JR=[{g "JR"}] YB=[{g "YB"}] YR=[{g "YR"}] TB=[{g "TB"}] TR=[{g "TR"}]"
+  else if mode = "cut" ∨ mode = "errfirst" then
+    if pairs.any (fun p => (g p.2).startsWith "ok:") then
+      r := r.violation s.idx l.idx s!"reader-error-swallowed class=reader mode={mode} opts={bits} JR=[{g "JR"}] YR=[{g "YR"}] TR=[{g "TR"}]: the caller's reader failed before the document was complete and the entry point returned a value"
+  else if mode = "tail" then
+    -- the bytes verdict or an error, never another value
+    if pairs.any (fun p => g p.2 ≠ g p.1 ∧ g p.2 ≠ "err") then
+      r := r.violation s.idx l.idx s!"reader-differs-from-bytes class=reader mode={mode} opts={bits} JB=[{g "JB"}] JR=[{g "JR"}] YB=[{g "YB"}] YR=[{g "YR"}] TB=[{g "TB"}] TR=[{g "TR"}]"
+  else if mode = "short" then
+    if (g "JR").startsWith "ok:" then
+      r := r.violation s.idx l.idx s!"truncated-stream-accepted class=reader mode={mode} opts={bits} JR=[{g "JR"}]: half of a JSON document followed by io.EOF was decoded into a value"
+  else if mode = "panic" ∨ mode = "panicstr" then
+    if pairs.any (fun p => (g p.2).startsWith "ok:") then
+      r := r.violation s.idx l.idx s!"reader-panic-swallowed class=reader mode={mode} opts={bits} JR=[{g "JR"}] YR=[{g "YR"}] TR=[{g "TR"}]"
+  else r := r.mismatch s.idx l.idx "bad-op" (joinSp l.op)
+  return r
+
+/-- the error paths of `conf.Load` / `LoadConfig`: no file, a directory, an empty file. -/
+def runFmiss (r : Report) (s : Section) (l : Line) (fs : Fields) (ext env api kind : String) : Report := Id.run do
+  let mut r := r
+  let oc : Opts := { confOpts with env := envOfTy (.struct fs) }
+  let impl := l.obs.headD "?"
+  let im := tyInModel (.struct fs)
+  r := aliasMonitor r s l
+  r := r.addCover s!"fmiss-{kind}"
+  r := r.addCover s!"fmiss-{api}-UseEnv-{env}"
+  let model : String :=
+    if kind ≠ "empty" then "err"
+    else match loaderOf ext.toList with
+      | none => "err"
+      | some .json => "err"                                   -- no JSON value at all
+      | some .yaml => "err"                                   -- the empty YAML document is null, rendered as "" : not a table
+      | some .toml => eitherF32 (fun o => printRes (loadJsonO o fs (.obj .nil))) oc (some impl)   -- the empty table
+  r := r.addCover s!"fmiss-{kind}-{classOf model}"
+  if (im ∨ model = "err") ∧ impl ≠ model then r := r.mismatch s.idx l.idx model impl
+  if kind ≠ "empty" ∧ impl.startsWith "ok:" then
+    r := r.violation s.idx l.idx s!"missing-file-accepted class=file-api api={api} ext={ext} kind={kind} file=[{impl}]"
+  if loaderOf ext.toList = none ∧ impl.startsWith "ok:" then
+    r := r.violation s.idx l.idx s!"unknown-extension-accepted class=file-api api={api} ext={ext} file=[{impl}]"
+  if impl = "panic" then
+    r := r.violation s.idx l.idx s!"loader-panicked class=panic at=conf.{api} ext={ext} kind={kind}"
   return r
 
 /-- documents whose keys collide up to case: every loader is run many times by the harness. -/
@@ -586,7 +689,21 @@ def runFload (r : Report) (s : Section) (l : Line) (fs : Fields) (ext : String) 
   if im ∧ impl ≠ model then r := r.mismatch s.idx l.idx model impl
   if ¬ im then r := r.addCover "outside-model-monitored-only"
   let want := if api = "MustLoad" ∧ (if im then model else impl).startsWith "ok:" then ["M=same"] else []
-  if dropAL (l.obs.drop 1) ≠ want then r := r.mismatch s.idx l.idx (joinSp (model :: want)) (joinSp (dropAL l.obs))
+  if (dropAL (l.obs.drop 1)).filter (fun t => !t.startsWith "D=") ≠ want then
+    r := r.mismatch s.idx l.idx (joinSp (model :: want)) (joinSp (dropAL l.obs))
+  -- D: the loader of the format called directly on the same (expanded) content
+  if impl ≠ "skip" then
+    let d := (obs? l.obs "D").getD "?"
+    match loaderOf ext.toList with
+    | none =>
+      if d ≠ "noloader" then r := r.mismatch s.idx l.idx "D=noloader" s!"D={d}"
+      if impl.startsWith "ok:" then
+        r := r.violation s.idx l.idx s!"unknown-extension-accepted class=file-api api={api} ext={ext} file=[{impl}]"
+    | some _ =>
+      if im ∧ d ≠ model then r := r.mismatch s.idx l.idx s!"D={model}" s!"D={d}"
+      r := r.addCover "fload-vs-direct-loader-checked"
+      if impl ≠ d then
+        r := r.violation s.idx l.idx s!"file-api-differs-from-loader class=file-api api={api} ext={ext} useEnv={useEnv} file=[{impl}] loader=[{d}]: conf.{api} on a file does not give what the loader of the extension gives on the same content"
   -- monitor: the result on the file is the result of the format's loader on the (un)expanded document
   if impl = "panic" then
     let cls := if printRes (lj { oc with f32Pinned := true } j') = "panic" then "env-float32-pointer" else "panic"
@@ -602,6 +719,83 @@ def runFload (r : Report) (s : Section) (l : Line) (fs : Fields) (ext : String) 
     if impl = other ∧ impl ≠ model then
       r := r.violation s.idx l.idx
         (if useEnv then s!"env-not-expanded-with-UseEnv class=env impl=[{impl}]" else s!"env-expanded-without-UseEnv class=env impl=[{impl}]")
+  return r
+
+/-- **the bytes a front end hands out stay what they were**: `rd` re-reads the slice an earlier `cv` got from
+`encoding.YamlToJson / TomlToJson`, after whatever conversions and loads came in between.  Model: `Buf.lean`
+(`encodeSite = .freshLocal`): the held bytes are the caller's own, so `held = snap = the tree of that conversion`. -/
+def runRd (r : Report) (s : Section) (l : Line) (st : St) (slot : String) : Report := Id.run do
+  let mut r := r
+  match st.slots.find? (fun p => p.1 = slot) with
+  | none =>
+    r := r.addCover "rd-empty-slot"
+    if joinSp l.obs ≠ "empty" then r := r.mismatch s.idx l.idx "empty" (joinSp l.obs)
+  | some (_, tree, seq) =>
+    r := checkTok r s l "snap" tree
+    r := checkTok r s l "held" tree
+    r := checkTok r s l "raw" "same"
+    let later := st.convs - seq
+    r := r.addCover (if later = 0 then "rd-immediately" else if later = 1 then "rd-after-one-later-conversion" else "rd-after-several-later-conversions")
+    let g (k : String) : String := (obs? l.obs k).getD "?"
+    if g "held" ≠ g "snap" ∨ g "raw" ≠ "same" then
+      r := r.violation s.idx l.idx s!"conversion-result-invalidated class=buffer-reuse slot={slot} later-conversions={later} now=[{g "held"}] handed-out=[{g "snap"}]: the bytes YamlToJson / TomlToJson returned were changed by a later conversion or load"
+  return r
+
+/-- `pload`: the documents loaded one after the other (reference, checked against the model) and then by several
+goroutines at once. -/
+def runPload (r : Report) (s : Section) (l : Line) (fs : Fields) (workers : String) (docs : List J) : Report := Id.run do
+  let mut r := r
+  let oc : Opts := { confOpts with env := envOfTy (.struct fs) }
+  let ou : Opts := { env := envOfTy (.struct fs) }
+  let im := tyInModel (.struct fs)
+  let g (k : String) : String := (obs? l.obs k).getD "?"
+  r := r.addCover s!"pload-workers-{workers}"
+  r := r.addCover s!"pload-docs-{docs.length}"
+  let mut i := 0
+  for j in docs do
+    let coll := !(noCaseCollision j)
+    let ck (r : Report) (key model : String) : Report :=
+      if coll then r.addCover "pload-collision-unchecked" else checkTokM im r s l key model
+    let tomlOk := tomlFront j (fun _ => "x") ≠ "skip"
+    r := ck r s!"J{i}" (eitherF32 (fun o => printRes (loadJsonO o fs j)) oc (obs? l.obs s!"J{i}"))
+    r := ck r s!"Y{i}" (eitherF32 (fun o => printRes (loadYamlO o fs (embY j))) oc (obs? l.obs s!"Y{i}"))
+    r := ck r s!"T{i}" (eitherF32 (fun o => tomlFront j (fun t => printRes (loadTomlO o fs t))) oc (obs? l.obs s!"T{i}"))
+    r := ck r s!"MY{i}" (eitherF32 (fun o => printRes (unmarshalYaml o fs (embY j))) ou (obs? l.obs s!"MY{i}"))
+    r := ck r s!"MT{i}" (eitherF32 (fun o => tomlFront j (fun t => printRes (unmarshalToml o fs t))) ou (obs? l.obs s!"MT{i}"))
+    let useEnv := i % 2 = 1
+    let j' := if useEnv then expandDoc j else j
+    let fl : String :=
+      if i % 3 = 0 then eitherF32 (fun o => printRes (loadJsonO o fs j')) oc (obs? l.obs s!"FL{i}")
+      else if i % 3 = 1 ∨ ¬ tomlOk then eitherF32 (fun o => printRes (loadYamlO o fs (embY j'))) oc (obs? l.obs s!"FL{i}")
+      else eitherF32 (fun o => tomlFront j' (fun t => printRes (loadTomlO o fs t))) oc (obs? l.obs s!"FL{i}")
+    r := ck r s!"FL{i}" fl
+    -- MO: mapping.UnmarshalJsonBytes with the option set (5 i + 1) mod 16 (different from document to document)
+    let om : Opts := { optsOfBits ((i * 5 + 1) % 16) with env := envOfTy (.struct fs) }
+    r := ck r s!"MO{i}" (eitherF32 (fun o => printRes (unmarshalWith o fs j)) om (obs? l.obs s!"MO{i}"))
+    if docHasDollar j then r := r.addCover (if useEnv then "pload-file-env-expanded" else "pload-file-env-literal")
+    r := r.addCover ("pload-doc-" ++ classOf (g s!"J{i}"))
+    if l.obs.any (fun t => t.endsWith "=panic") then
+      r := r.violation s.idx l.idx s!"loader-panicked class=panic at=pload obs=[{joinSp (l.obs.filter fun t => t.endsWith "=panic")}]"
+    if inScope j ∧ ¬ coll then
+      let a := g s!"J{i}"
+      let t := g s!"T{i}"
+      if a ≠ g s!"Y{i}" ∨ (t ≠ "skip" ∧ a ≠ t) then
+        r := r.violation s.idx l.idx s!"format-dependent class=format at=pload LJ=[{a}] LY=[{g s!"Y{i}"}] LT=[{t}] doc=[{printTree j}]"
+    i := i + 1
+  -- monitor: a load is a function of its own arguments, whatever runs at the same time
+  match obs? l.obs "CC" with
+  | some "same" => r := r.addCover "pload-concurrent-same"
+  | some d =>
+    r := (r.mismatch s.idx l.idx "CC=same" s!"CC={d}").violation s.idx l.idx
+      s!"concurrent-load-differs class=shared-state workers={workers} docs={docs.length} first=[{d}]: a load that runs at the same time as loads of OTHER documents returned something else than the same call alone (entry point + document index)"
+  | none => r := r.mismatch s.idx l.idx "CC=same" "CC missing"
+  match obs? l.obs "race" with
+  | some "na" => r := r.addCover "pload-race-detector-off"
+  | some "0" => r := r.addCover "pload-race-detector-clean"
+  | some "1" =>
+    r := (r.mismatch s.idx l.idx "race=0" "race=1").violation s.idx l.idx
+      s!"data-race-between-loads class=shared-state workers={workers} docs={docs.length}: the race detector fired while different documents were loaded concurrently (state shared between loads)"
+  | _ => r := r.mismatch s.idx l.idx "race=0|na" (joinSp l.obs)
   return r
 
 def expandVar (name val : String) : String := if name = "C17unset" then "" else val
@@ -642,7 +836,31 @@ def runSection (r : Report) (s : Section) : Report := Id.run do
         if p.2 ≠ ob ∧ ¬ (ob.splitOn "nondet").length > 1 then
           r := r.violation s.idx l.idx s!"load-depends-on-earlier-calls class=sequence op=[{key}] first=[{p.2}] now=[{ob}]"
       | none => st := { st with seen := (key, ob) :: st.seen }
+    if (l.op.getLastD "").length > 4096 then r := r.addCover s!"document-over-4KB-{l.op.headD ""}"
+    if ["cv", "load", "munm", "mrd", "cload", "fload", "pload"].contains (l.op.headD "") then
+      st := { st with convs := st.convs + 1 }
     match l.op with
+    | ["cv", slot, fmt, _, d] =>
+      match parseDocTok d with
+      | some j =>
+        if fmt = "y" ∨ fmt = "t" then
+          let model := if fmt = "y" then printTree (yamlGlue (embY j)) else tomlFront j (fun t => printTree (tomlGlue t))
+          r := checkTok r s l "tree" model
+          r := r.addCover (if fmt = "y" then "cv-yaml" else "cv-toml")
+          if st.slots.any (fun p => p.1 = slot) then r := r.addCover "cv-slot-overwritten"
+          if model = "skip" then pure ()
+          else if model = "err" then st := { st with slots := st.slots.filter (fun p => p.1 ≠ slot) }
+          else st := { st with slots := (slot, model, st.convs) :: st.slots.filter (fun p => p.1 ≠ slot) }
+        else r := r.mismatch s.idx l.idx "bad-op" (joinSp l.op)
+      | none => r := r.mismatch s.idx l.idx "bad-doc" d
+    | ["rd", slot] => r := runRd r s l st slot
+    | "pload" :: workers :: _ :: _ :: ds =>
+      match st.fs with
+      | none => if joinSp l.obs ≠ "no-type" then r := r.mismatch s.idx l.idx "no-type" (joinSp l.obs)
+      | some fs =>
+        let docs := ds.filterMap parseDocTok
+        if docs.length ≠ ds.length ∨ ds = [] then r := r.mismatch s.idx l.idx "bad-doc" (joinSp l.op)
+        else r := runPload r s l fs workers docs
     | ["type", t] =>
       match parseTyTok t with
       | some fs =>
@@ -665,9 +883,22 @@ def runSection (r : Report) (s : Section) : Report := Id.run do
       match st.fs with
       | none => if joinSp l.obs ≠ "no-type" then r := r.mismatch s.idx l.idx "no-type" (joinSp l.obs)
       | some fs =>
-        match parseDocTok d, bits.toNat? with
+        -- "<bits>r": the same options as a LIST in reverse order, each one twice (`applyMOpts_flags`: the same record)
+        if bits.endsWith "r" then r := r.addCover "munm-option-list-reversed-doubled"
+        match parseDocTok d, bitsOfTok bits with
         | some j, some b => r := runMunm r s l fs b j
         | _, _ => r := r.mismatch s.idx l.idx "bad-doc" d
+    | ["mrd", mode, bits, _, d] =>
+      match st.fs with
+      | none => if joinSp l.obs ≠ "no-type" then r := r.mismatch s.idx l.idx "no-type" (joinSp l.obs)
+      | some fs =>
+        match parseDocTok d, bitsOfTok bits with
+        | some j, some b => r := runMrd r s l fs mode b j
+        | _, _ => r := r.mismatch s.idx l.idx "bad-doc" d
+    | ["fmiss", ext, env, api, kind] =>
+      match st.fs with
+      | none => if joinSp l.obs ≠ "no-type" then r := r.mismatch s.idx l.idx "no-type" (joinSp l.obs)
+      | some fs => r := runFmiss r s l fs ext env api kind
     | ["cload", _, d] =>
       match st.fs, parseDocTok d with
       | some fs, some j => r := runCload r s l fs j
@@ -688,9 +919,10 @@ def runSection (r : Report) (s : Section) : Report := Id.run do
     | ["fload", ext, env, api, _, d] =>
       match st.fs, parseDocTok d with
       | some fs, some j =>
-        r := runFload r s l fs ext (env = "1") api j
+        r := runFload r s l fs ext (env ≠ "0") api j
+        if env = "2" then r := r.addCover "fload-UseEnv-given-twice"
         -- the loads of a section are one sequence in one process: which option sets follow each other
-        let e := env = "1"
+        let e := env ≠ "0"
         if docHasDollar j then
           match st.prevEnv with
           | some true => r := r.addCover (if api = "Bytes" then "seq-bytes-after-UseEnv" else if e then "seq-env-on-after-on" else "seq-env-off-after-on")
